@@ -582,6 +582,7 @@ def main():
             pass
         return 2
     p = Path(dest)
+    p.parent.mkdir(parents=True, exist_ok=True)      # a tree restored from version control has no coq/Gen yet
     if not p.exists() or p.read_text() != text:
         p.write_text(text)
     tdest = p.parent / "Temporal_gen.v"
